@@ -143,6 +143,17 @@ def gen_pair(rng, big=False, with_schema=False, c06_class=False, doubled=False, 
         if table_opts and rng.random() < 0.4:
             # SQLite table option (same on both sides: autogenerate does not compare it)
             conn_t["without_rowid"] = meta_t["without_rowid"] = True
+        if table_opts and pres != "both" and rng.random() < 0.35:
+            # (C09) composite primary key written in another order than the columns are declared: PRIMARY KEY (x, id)
+            side_t = conn_t if pres == "conn" else meta_t
+            cand = [c for c in side_t["cols"] if c["name"] != "id"]
+            if cand:
+                extra = rng.sample(cand, min(len(cand), rng.choice([1, 1, 2])))
+                for c in extra:
+                    c["nullable"] = False
+                    c.pop("autoinc", None)      # SQLite: no autoincrement inside a composite primary key
+                side_t["pk_order"] = [c["name"] for c in reversed(extra)] + ["id"]
+                side_t["pk_name"] = rng.choice([None, None, "pk_%s" % tag])
         if pres in ("both", "conn"):
             conn.append(conn_t)
         if pres in ("both", "meta"):
@@ -273,7 +284,10 @@ def _build_table(md, t):
                 ckw["autoincrement"] = c["autoinc"]
             if c.get("comment") is not None:
                 ckw["comment"] = c["comment"]
-            args.append(sa.Column(c["name"], TYPES[c["ty"]](), nullable=c["nullable"], primary_key=c.get("pk", False), **ckw))
+            args.append(sa.Column(c["name"], TYPES[c["ty"]](), nullable=c["nullable"],
+                                  primary_key=c.get("pk", False) and not t.get("pk_order"), **ckw))
+        if t.get("pk_order"):
+            args.append(sa.PrimaryKeyConstraint(*t["pk_order"], name=t.get("pk_name")))
         for u in t["uqs"]:
             args.append(sa.UniqueConstraint(*u["cols"], name=u["name"]))
         for f in t["fks"]:
@@ -349,6 +363,8 @@ def table_options(conn, schemas):
     for s in schemas:
         for tn in insp.get_table_names(schema=s):
             out["%s.%s" % (s or "", tn)] = {k: v for k, v in sorted(insp.get_table_options(tn, schema=s).items())}
+            # ... and the primary key as the database reports it: column ORDER included
+            out["%s.%s" % (s or "", tn)]["primary_key"] = list(insp.get_pk_constraint(tn, schema=s)["constrained_columns"])
     return out
 
 
